@@ -36,11 +36,12 @@ inductive RErr where
   | bpad     -- bad_body_padding_contents
   | crc      -- crc_mismatch
   | other    -- pong errors
+  | panic    -- `cryptoReader.encrypt` called twice ("changing encryption on the fly is not supported")
   deriving DecidableEq, Repr
 
 def RErr.name : RErr → String
   | .eof => "eof" | .ueof => "ueof" | .pad => "pad" | .size => "size" | .size4 => "size4" | .ntype => "ntype"
-  | .htype => "htype" | .seq => "seq" | .bpad => "bpad" | .crc => "crc" | .other => "other"
+  | .htype => "htype" | .seq => "seq" | .bpad => "bpad" | .crc => "crc" | .other => "other" | .panic => "panic"
 
 structure RState where
   n : Nat := 0                  -- packets read; `readSeqNum = n + startSeqNum`
@@ -152,26 +153,34 @@ inductive ModeOp where
   | encrypt (key iv : Bytes)
   deriving DecidableEq, Repr
 
-def applyModeOp {σ : Type} (ops : SrcOps σ) (st : RState) (s : σ) : ModeOp → RState × σ
-  | .setProto v => ({ st with mode := { st.mode with proto := v } }, s)
-  | .setCrcC => ({ st with mode := { st.mode with crcC := true } }, s)
-  | .encrypt k iv => ({ st with mode := { st.mode with enc := true } }, ops.encrypt k iv s)
+def applyModeOp {σ : Type} (ops : SrcOps σ) (st : RState) (s : σ) : ModeOp → Option (RState × σ)
+  | .setProto v => some ({ st with mode := { st.mode with proto := v } }, s)
+  | .setCrcC => some ({ st with mode := { st.mode with crcC := true } }, s)
+  | .encrypt k iv =>
+    if st.mode.enc then none   -- Go panics
+    else some ({ st with mode := { st.mode with enc := true } }, ops.encrypt k iv s)
 
-def applyModeOps {σ : Type} (ops : SrcOps σ) (st : RState) (s : σ) : List ModeOp → RState × σ
-  | [] => (st, s)
-  | o :: os => let r := applyModeOp ops st s o; applyModeOps ops r.1 r.2 os
+def applyModeOps {σ : Type} (ops : SrcOps σ) (st : RState) (s : σ) : List ModeOp → Option (RState × σ)
+  | [] => some (st, s)
+  | o :: os =>
+    match applyModeOp ops st s o with
+    | none => none
+    | some r => applyModeOps ops r.1 r.2 os
 
-/-- Read until the first error (the end of the stream is the error `eof`). `sched k` is what the owner of the
-connection does once `k` packets have been read. `none` as final error = `fuel` exhausted. -/
-def readAll {σ : Type} (ops : SrcOps σ) (e : Env) (sched : Nat → List ModeOp) : Nat → RState → σ → List Ev × Option RErr
+/-- The reading loop of a connection owner: apply the mode changes scheduled for the current packet count
+(`sched k` = what the handshake logic does once `k` packets have been read), then `ReadPacket`; until the first
+error (the end of the stream is the error `eof`). `none` as final error = `fuel` exhausted. -/
+def readLoop {σ : Type} (ops : SrcOps σ) (e : Env) (sched : Nat → List ModeOp) : Nat → RState → σ → List Ev × Option RErr
   | 0, _, _ => ([], none)
   | fuel + 1, st, s =>
-    match readPacket ops e st s with
-    | .error er => ([], some er)
-    | .ok (ev, st1, s1) =>
-      let r := applyModeOps ops st1 s1 (sched st1.n)
-      let rest := readAll ops e sched fuel r.1 r.2
-      (ev :: rest.1, rest.2)
+    match applyModeOps ops st s (sched st.n) with
+    | none => ([], some .panic)
+    | some r =>
+      match readPacket ops e r.1 r.2 with
+      | .error er => ([], some er)
+      | .ok (ev, st1, s1) =>
+        let rest := readLoop ops e sched fuel st1 s1
+        (ev :: rest.1, rest.2)
 
 /-! ### the pure source: the remaining decrypted stream -/
 
